@@ -134,6 +134,7 @@ func newInterp(w *World, tt *TermTable, ex *Explorer, job *Job, funcs map[string
 	in := &Interp{w: w, tt: tt, ex: ex, globals: map[*ssa.Global]Ptr{}, funcsRun: funcs,
 		reach: map[string]bool{}, builders: map[*Val]*[]Piece{}, ioErrs: map[string]*ErrV{}, pools: map[*Val][]Val{}, pureDone: map[*ssa.Package]bool{}}
 	in.noIfConv = os.Getenv("VERIF_NO_IFCONV") != ""
+	in.poolMonitor = job.Prop == "C13" || job.Prop == "C14" || job.Prop == "CXX"
 	in.stepBudget = job.StepBudget
 	if in.stepBudget == 0 {
 		in.stepBudget = 200000
